@@ -8,7 +8,10 @@ import (
 	"bytes"
 	"crypto"
 	"crypto/ecdsa"
+	"crypto/rand"
+	"crypto/rsa"
 	"crypto/x509"
+	"crypto/x509/pkix"
 	"encoding/pem"
 	"fmt"
 	"math/big"
@@ -138,6 +141,11 @@ func loadMaterial(dir string) *material {
 		m.PGP[k] = e
 		m.PGPByID[e.PrimaryKey.KeyId] = k
 	}
+	// further leaf certificates configurations refer to by name
+	m.Leaf["rsaA-selfsigned"] = readCertFile(fx("rsaA.selfsigned.crt"))[0]
+	if _, err := os.Stat(m.path("rsaA.same-modulus-exponent-3.crt")); err == nil {
+		m.Leaf["rsaA-e3"] = readCertFile(m.path("rsaA.same-modulus-exponent-3.crt"))[0]
+	}
 	return m
 }
 
@@ -159,6 +167,22 @@ func (m *material) generate() {
 				must(fmt.Errorf("openssl crl2pkcs7: %v: %s", err, out))
 			}
 		}
+	}
+	// a self-signed signing certificate (Android style) with one more, unrelated-to-it CA certificate appended
+	ss := m.Leaf["rsaA-selfsigned"]
+	m.writePEM("rsaA.selfsigned+inter.crt", ss, m.Inter)
+	m.writePEM("rsaA.selfsigned+inter+root.crt", ss, m.Inter, m.Root)
+	// a certificate for rsaA's modulus with another public exponent: not rsaA's key
+	{
+		pub := m.Signer["rsaA"].Public().(*rsa.PublicKey)
+		tmpl := &x509.Certificate{SerialNumber: big.NewInt(0xe3), Subject: pkix.Name{CommonName: "leaf rsaA modulus, exponent 3"},
+			NotBefore: m.Inter.NotBefore, NotAfter: m.Inter.NotAfter, KeyUsage: x509.KeyUsageDigitalSignature, ExtKeyUsage: []x509.ExtKeyUsage{x509.ExtKeyUsageCodeSigning}}
+		der, err := x509.CreateCertificate(rand.Reader, tmpl, m.Inter, &rsa.PublicKey{N: pub.N, E: 3}, loadPrivate("inter"))
+		must(err)
+		c, err := x509.ParseCertificate(der)
+		must(err)
+		m.Leaf["rsaA-e3"] = c
+		m.writePEM("rsaA.same-modulus-exponent-3.crt", c, m.Inter, m.Root)
 	}
 	// an unrelated leaf after / before the real chain
 	m.writePEM("rsaA.extra-leafB-last.crt", m.Leaf["rsaA"], m.Inter, m.Root, m.Leaf["rsaB"])
